@@ -155,6 +155,15 @@ fn comp3(a: &mut Args, tm: bool) -> String {
         }
         obs += &format!("{} ", leaves.len());
         for l in &leaves { obs += &format!("{} ", l); }
+        // the property's reference: a FRESH computation at this pose (new manifold vector, no workspace)
+        {
+            let mut fm: Vec<M3> = Vec::new(); let mut fws = None;
+            let r = if flipped { DefaultQueryDispatcher.contact_manifolds(p, &*other, &*comp, pred, &mut fm, &mut fws) }
+                    else { DefaultQueryDispatcher.contact_manifolds(p, &*comp, &*other, pred, &mut fm, &mut fws) };
+            if r.is_err() { return "unsupported".into(); }
+            obs += &format!("{} ", fm.len());
+            for m in &fm { obs += &format!("{} {} {} ", m.subshape1, m.subshape2, fman3(m)); }
+        }
         let r = if flipped { DefaultQueryDispatcher.contact_manifolds(p, &*other, &*comp, pred, &mut manifolds, &mut ws) }
                 else { DefaultQueryDispatcher.contact_manifolds(p, &*comp, &*other, pred, &mut manifolds, &mut ws) };
         if r.is_err() { return "unsupported".into(); }
